@@ -50,6 +50,66 @@ def run(ctx):
         c07.namekey(ctx, rn, fam)
 
 
+def crc_step_shape(body, rv, res, R):
+    """rv is `(res >> 8) ^ FP_TABLE[((res ^ <byte> as u64) & 0xFF) as usize]`; returns the tree of <byte> or None"""
+    if rv['k'] != 'bin' or rv['op'] != 'BitXor':
+        return None
+    l, r = expr_tree(body, rv['l'], 16), expr_tree(body, rv['r'], 16)
+    if l[0] == 'index':
+        l, r = r, l
+    if l != ('Shr', res, ('c', 8)):
+        return None
+    if not (r[0] == 'index' and r[1] == ('named', R + 'FP_TABLE')):
+        return None
+    idx = r[2]
+    while idx[0] == 'cast':
+        idx = idx[2]
+    if not (idx[0] == 'BitAnd' and ('c', 255) in idx[1:]):
+        return None
+    inner = idx[1] if idx[2] == ('c', 255) else idx[2]
+    if inner[0] != 'BitXor':
+        return None
+    a, b_ = inner[1], inner[2]
+    if a != res:
+        a, b_ = b_, a
+    if a == res and b_[0] == 'cast' and b_[1] == 'u64':
+        return b_
+    return None
+
+
+def crc_fold_form(w, s, R):
+    """the same recurrence written as `self.result = data.iter().fold(self.result, |r, &b| STEP(r, b))`"""
+    f = w.facts
+    o = origin(w, s['rv'].get('op') or s['assign']) if s['rv']['k'] == 'use' else None
+    if o is None:
+        return False, ''
+    folds = [c for c in o.calls if (c.get('callee') or '').endswith('Iterator::fold')]
+    if len(folds) != 1 or len(folds[0]['args']) != 3:
+        return False, ''
+    fc = folds[0]
+    io, init, co = origin(w, fc['args'][0]), origin(w, fc['args'][1]), origin(w, fc['args'][2])
+    names = deep_call_names(w, fc['args'][0])
+    data_ok = io.params() == {2} and 'iter' in io.flags and not any(x in n_ for n_ in names for x in ('rev', 'skip', 'step_by', 'take', 'filter', 'chain'))
+    init_ok = 'result' in init.fields and init.params() == {1} and not init.has_arith()
+    cl = [a[1] for a in co.atoms if a[0] == 'closure']
+    step_ok = False
+    if len(cl) == 1 and cl[0] in f.bodies:
+        cb = f.bodies[cl[0]]
+        for d in cb.defs().get(0, []):
+            if d[2] == 'assign' and d[0] in cb.live_blocks() and not cb.is_cleanup(d[0]):
+                byte = crc_step_shape(cb, d[3], ('param', 2), R)
+                if byte is not None:
+                    bo = origin(cb, {'copy': {'l': 3}})
+                    # the byte is the closure's element parameter (pattern `&b`)
+                    step_ok = True
+                    t = byte
+                    while t and t[0] == 'cast':
+                        t = t[2]
+                    step_ok = t is not None and (t == ('param', 3) or (t[0] in ('deref', 'field') and ('param', 3) in t) or 'param' in str(t) and '3' in str(t))
+    ok = data_ok and init_ok and step_ok
+    return ok, 'fold form: data.iter() in order: %s; accumulator starts from self.result: %s; closure is (r >> 8) ^ FP_TABLE[((r ^ b as u64) & 0xFF) as usize]: %s' % (data_ok, init_ok, step_ok)
+
+
 def crc(ctx):
     f = ctx.f
     R = 'schema::safe::rabin::'
@@ -128,6 +188,10 @@ def crc(ctx):
             inloop = any(bb in blk for blk in natural_loops(w).values())
             ok = shape and byte_ok and inloop
             det = 'loop body is result = (result >> 8) ^ FP_TABLE[((result ^ b as u64) & 0xFF) as usize]: %s; b iterates the data in order: %s; inside the loop: %s' % (shape, byte_ok, inloop)
+            if not ok:
+                ok2, det2 = crc_fold_form(w, s, R)
+                if ok2:
+                    ok, det = ok2, det2
         ctx.ob('CRC', 'step', ok, short_loc(w.span), det)
         # nothing else touches the running value
     d = fn_by_label(f, '<' + R + 'Rabin as core::default::Default>::default')
